@@ -13,7 +13,8 @@
    code_is_variant). *)
 From Coq Require Import ZArith QArith Qcanon List Bool Ascii String.
 From SVP Require Import Base.Num Base.Cplx Model.Parse Model.Lexer
-     Proofs.ParseRefine Proofs.ParseCorollaries Proofs.LexerScan Proofs.LexerRender.
+     Proofs.ParseRefine Proofs.ParseCorollaries Proofs.LexerScan Proofs.LexerRender
+     Proofs.LexerDot.
 Import ListNotations.
 Local Open Scope list_scope.
 
@@ -326,6 +327,115 @@ Theorem C02_trailing_dot_exponent_refuted :
   /\ toks_eqb NumQ (lex_string "1. 2.") [TNum (q 1); TNum (q 2)] = true.
 Proof. vm_compute. repeat split. Qed.
 
+(* ================================================================== *)
+(* The repaired number pattern (Model/Lexer.v, float_re true)          *)
+(*   [-+]?(?:[0-9]+\.?[0-9]*|\.[0-9]+)(?:[eE][-+]?[0-9]+)?             *)
+(* ================================================================== *)
+
+Theorem C02_float_re_dot_is_scanner : forall s, match_re FLOAT_RE_DOT s = scan_float_dot s.
+Proof. exact match_re_dot_scan. Qed.
+
+(* numerals of the full SVG number grammar, incl. "1." and "1.e3" *)
+Theorem C02_scan_numeral_dot : forall n rest,
+    numeral_d_wf n = true -> follow_d n rest -> scan_float_dot (ntext_d n ++ rest) = Some rest.
+Proof. exact scan_numeral_d. Qed.
+
+Theorem C02_lex_render_dot : forall items trail,
+    ditems_ok None items = true -> forallb is_sepchar trail = true ->
+    lex_re FLOAT_RE_DOT (drender items trail) = map dtok_value (map snd items).
+Proof. exact lex_render_dot. Qed.
+
+Theorem C02_spellings_dot : forall items1 trail1 items2 trail2,
+    ditems_ok None items1 = true -> forallb is_sepchar trail1 = true ->
+    ditems_ok None items2 = true -> forallb is_sepchar trail2 = true ->
+    map dtok_value (map snd items1) = map dtok_value (map snd items2) ->
+    lex_re FLOAT_RE_DOT (drender items1 trail1) = lex_re FLOAT_RE_DOT (drender items2 trail2).
+Proof. exact spellings_same_tokens_dot. Qed.
+
+(* nothing is lost: every rendering covered by C02_lex_render is read the
+   same way, token texts included, by the repaired pattern *)
+Theorem C02_lex_render_dot_keeps_old : forall items trail,
+    items_ok None items = true -> forallb is_sepchar trail = true ->
+    tokenize_re FLOAT_RE_DOT (render items trail) = tokenize (render items trail)
+    /\ lex_re FLOAT_RE_DOT (render items trail) = map tok_of_stok (map snd items).
+Proof.
+  intros items trail Ok Tr. split.
+  - exact (tokenize_re_dot_old_renderings items trail Ok Tr).
+  - exact (lex_render_dot_old items trail Ok Tr).
+Qed.
+
+(* the generic tokenizer at the pinned pattern is the pinned tokenizer *)
+Theorem C02_tokenize_re_pinned : forall s, tokenize_re FLOAT_RE s = tokenize s.
+Proof. exact tokenize_re_old. Qed.
+
+(* the refuted spelling is read as the SVG grammar says; adjacent arc flags are not *)
+Theorem C02_trailing_dot_exponent_repaired :
+  toks_eqb NumQ (lex_string_re FLOAT_RE_DOT "1.e3") [TNum (q 1000)] = true
+  /\ toks_eqb NumQ (lex_string_re FLOAT_RE_DOT "1. 2.") [TNum (q 1); TNum (q 2)] = true
+  /\ toks_eqb NumQ (lex_string_re FLOAT_RE_DOT "M0 0 L1.e1 4")
+       [TCmd cM true; TNum (q 0); TNum (q 0); TCmd cL true; TNum (q 10); TNum (q 4)] = true
+  /\ toks_eqb NumQ (lex_string_re FLOAT_RE_DOT "M0 0 A1,1 0 11 2,0")
+       [TCmd cM true; TNum (q 0); TNum (q 0); TCmd cA true; TNum (q 1); TNum (q 1); TNum (q 0);
+        TNum (q 11); TNum (q 2); TNum (q 0)] = true.
+Proof. vm_compute. repeat split. Qed.
+
+(* non-vacuity: "M1.-2.e1,.5 3.z" is a rendering covered by C02_lex_render_dot *)
+Definition ex_items_dot : list (gitem numeral_d) :=
+  [([], DCmd cM true);
+   ([], DNum (mkNumeralD None [d1] true [] None));                                  (* 1. *)
+   ([], DNum (mkNumeralD (Some true) [d2] true [] (Some ("e"%char, None, [d1]))));  (* -2.e1 *)
+   ([","%char], DNum (mkNumeralD None [] true [d5] None));                          (* .5 *)
+   ([" "%char], DNum (mkNumeralD None [d3] true [] None));                          (* 3. *)
+   ([], DCmd cZ false)].
+Example C02_render_dot_nonvacuous :
+  ditems_ok None ex_items_dot = true
+  /\ string_of_list_ascii (drender ex_items_dot []) = "M1.-2.e1,.5 3.z"%string
+  /\ toks_eqb NumQ (lex_re FLOAT_RE_DOT (drender ex_items_dot []))
+       [TCmd cM true; TNum (qc 1 1); TNum (qc (-20) 1); TNum (qc 1 2); TNum (qc 3 1); TCmd cZ false] = true.
+Proof. vm_compute. repeat split. Qed.
+
+(* ---- arc flags without separators: the arc pass of the repaired tokenizer
+   (Model/Lexer.v, tokenize_v _ true) ---- *)
+
+(* it changes nothing when no token at a flag position can be split ... *)
+Theorem C02_arc_fix_idle : forall l st, arc_idle st l = true -> arc_fix st l = l.
+Proof. exact arc_fix_idle. Qed.
+
+(* ... hence every rendering with properly written flags is read alike by the
+   four variants of the tokenizer (nothing is lost by either repair) *)
+Theorem C02_tokenize_v_render : forall dot_ok arc_ok items trail,
+    items_ok None items = true -> forallb is_sepchar trail = true ->
+    arc_idle None (map ltok_of (map snd items)) = true ->
+    tokenize_v dot_ok arc_ok (render items trail) = map ltok_of (map snd items).
+Proof. exact tokenize_v_render_old. Qed.
+Theorem C02_tokenize_v_render_dot : forall arc_ok items trail,
+    ditems_ok None items = true -> forallb is_sepchar trail = true ->
+    arc_idle None (map (gltok numeral_d ntext_d) (map snd items)) = true ->
+    tokenize_v true arc_ok (drender items trail) = map (gltok numeral_d ntext_d) (map snd items).
+Proof. exact tokenize_v_render_dot. Qed.
+
+(* the refuted spellings are read as the SVG grammar says (witnesses; the
+   general statement for compact flags is checked by the harness, not proved) *)
+Theorem C02_adjacent_arc_flags_repaired :
+  toks_eqb NumQ (lex_string_v true true "M0 0 A1,1 0 11 2,0") intended_arc = true
+  /\ toks_eqb NumQ (lex_string_v false true "M0 0 A1,1 0 112,0") intended_arc = true
+  /\ toks_eqb NumQ (lex_string_v true true "M0 0 A1,1 0 1 12,0") intended_arc = true
+  /\ toks_eqb NumQ (lex_string_v true true "M0 0 A1,1 0 1 1 2,0") intended_arc = true
+  /\ toks_eqb NumQ (lex_string_v true true "M0 0a2.5 2.5 0 00.5-.5")
+       [TCmd cM true; TNum (q 0); TNum (q 0); TCmd cA false; TNum (qc 5 2); TNum (qc 5 2); TNum (q 0);
+        TNum (q 0); TNum (q 0); TNum (qc 1 2); TNum (qc (-1) 2)] = true
+  /\ res_eqb (parse_string_v true true true true "M0 0 A1,1 0 11 2,0" O)
+             (Ok [Arc (p 0 0) (p 1 1) (q 0) true true (p 2 0)]) = true.
+Proof. vm_compute. repeat split. Qed.
+
+(* the two repaired parser behaviours on the former witnesses: variant (true,true) *)
+Theorem C02_repaired_on_witnesses :
+  res_eqb (impl_parse NumQ true true (flatten NumQ w_S_after_Z) O) (Ok (spec_run NumQ O w_S_after_Z)) = true
+  /\ res_eqb (impl_parse NumQ true true (flatten NumQ w_T_after_Z) O) (Ok (spec_run NumQ O w_T_after_Z)) = true
+  /\ impl_parse NumQ true true (flatten NumQ w_arc_coincident) O = Ok []
+  /\ impl_parse NumQ true true (flatten NumQ w_arc_coincident_zero) O = Ok [].
+Proof. vm_compute. repeat split. Qed.
+
 Print Assumptions C02_refines_general.
 Print Assumptions C02_refines.
 Print Assumptions C02_refines_partial.
@@ -355,3 +465,15 @@ Print Assumptions C02_spellings.
 Print Assumptions C02_spellings_same_path.
 Print Assumptions C02_adjacent_arc_flags_refuted.
 Print Assumptions C02_trailing_dot_exponent_refuted.
+Print Assumptions C02_float_re_dot_is_scanner.
+Print Assumptions C02_scan_numeral_dot.
+Print Assumptions C02_lex_render_dot.
+Print Assumptions C02_spellings_dot.
+Print Assumptions C02_lex_render_dot_keeps_old.
+Print Assumptions C02_tokenize_re_pinned.
+Print Assumptions C02_trailing_dot_exponent_repaired.
+Print Assumptions C02_repaired_on_witnesses.
+Print Assumptions C02_arc_fix_idle.
+Print Assumptions C02_tokenize_v_render.
+Print Assumptions C02_tokenize_v_render_dot.
+Print Assumptions C02_adjacent_arc_flags_repaired.
